@@ -19,20 +19,23 @@ import (
 
 // c25: one stalled peer must not stop service to the others.
 type c25 struct {
-	b         *Node   // the responder under test
-	s         *Node   // the stalled peer
-	others    []*Node // X, Y
-	sReqs     []*Req
-	oReqs     []*Req
-	oDags     []*DAG
-	sHook     string   // what the responder's request hook does for the stalled peer's requests: accept | ext
-	oHook     []string // per other-request: accept | ext | pause | reject | update
-	descr     string
-	actions   []*Event
-	sActs     []string
-	fired     map[string]bool
-	memFull   bool
-	requestor bool // family 2: the node under test is a requestor whose sends to one responder stall
+	b          *Node   // the responder under test
+	s          *Node   // the stalled peer
+	others     []*Node // X, Y
+	sReqs      []*Req
+	oReqs      []*Req
+	oDags      []*DAG
+	sHook      string // what the responder's request hook does for the stalled peer's requests: accept | ext
+	sFromS     *Req   // requestor family: the stalled peer's own request to B (B serves it)
+	sCancelAt  int    // ... and the step from which B's caller may cancel B's request to S
+	sCancelled bool
+	oHook      []string // per other-request: accept | ext | pause | reject | update
+	descr      string
+	actions    []*Event
+	sActs      []string
+	fired      map[string]bool
+	memFull    bool
+	requestor  bool // family 2: the node under test is a requestor whose sends to one responder stall
 }
 
 func newC25() Scenario          { return &c25{fired: map[string]bool{}} }
@@ -136,9 +139,24 @@ func (s *c25) Build(w *World) {
 
 func (s *c25) buildRequestor(w *World) {
 	t := w.Tape
-	s.b = NewNode(w, "B", NodeCfg{GateReads: true, GateCommits: true})
-	s.s = NewNode(w, "S", NodeCfg{GateReads: true})
+	// B may also be serving the stalled peer (its allowance for S fills up) while it is S's requestor
+	serving := t.Chance(500)
+	blk := 400 + t.Draw(600)
+	bcfg := NodeCfg{GateReads: true, GateCommits: true}
+	if serving {
+		bcfg.Opts = append(bcfg.Opts, gsimpl.MaxMemoryPerPeerResponder(uint64(2*blk+100)), gsimpl.SendMessageTimeout(10*time.Minute))
+	}
+	s.b = NewNode(w, "B", bcfg)
+	s.s = NewNode(w, "S", NodeCfg{GateReads: true, GateCommits: true})
 	w.Net.StalledPairs["B>S"] = true
+	if serving {
+		dS := GenDAG(t, GenCfg{MaxBlocks: 6 + t.Draw(6), MaxDepth: 2, BlockPad: blk})
+		for _, c := range dS.Order {
+			s.b.Store.Put(c, dS.Blocks[c])
+		}
+		s.sFromS = s.s.NewReq("sx", s.b, dS.Root, AllSelector(8))
+		s.sCancelAt = 10 + t.Draw(60)
+	}
 	for _, nm := range []string{"X", "Y"} {
 		s.others = append(s.others, NewNode(w, nm, NodeCfg{GateReads: true}))
 	}
@@ -158,7 +176,7 @@ func (s *c25) buildRequestor(w *World) {
 		s.oReqs = append(s.oReqs, s.b.NewReq(fmt.Sprintf("o%d", i), to, d.Root, AllSelector(8)))
 		s.oHook = append(s.oHook, "accept")
 	}
-	s.descr = fmt.Sprintf("requestor B: sends to S stall; %d requests to X/Y", nO)
+	s.descr = fmt.Sprintf("requestor B: sends to S stall; %d requests to X/Y; serving S=%v", nO, serving)
 	w.AddProvider(s.events(w))
 }
 
@@ -171,6 +189,19 @@ func (s *c25) events(w *World) func() []*Event {
 			}
 		}
 		if s.requestor {
+			if s.sFromS != nil {
+				if !s.sFromS.Issued {
+					evs = append(evs, s.sFromS.IssueEvent())
+				}
+				// B's caller gives up on its request to S: the cancel has to go out on the stalled connection
+				if !s.sCancelled && s.sReqs[0].Returned && w.Step >= s.sCancelAt {
+					evs = append(evs, Inject("api", "act|B|s0|ctxcancel", func(string) {
+						s.sCancelled = true
+						w.Probe("c25-requestor-cancels-request-to-stalled-peer")
+						s.sReqs[0].Cancel()
+					}))
+				}
+			}
 			return evs
 		}
 		// the stalled peer keeps talking
